@@ -247,6 +247,14 @@ def main(argv=None):
                              'runs': e['runs'], 'known': True, 'occurrences': e['n'],
                              'replay': None, 'ops': None, 'minimised_from': None})
             known_hit[kid] = True
+        # every listed finding of this property is named, met in this batch or not
+        met_ids = set(khits) | set(k.get('id') for k in known_hit.values()
+                                   if isinstance(k, dict))
+        for k in known:
+            if k.get('property') == prop and k.get('status') == 'known' and \
+                    k.get('id') not in met_ids:
+                log('KNOWN-FINDING: property=%s %s [listed; not met by the %d runs of this '
+                    'batch]' % (prop, k.get('what', k.get('id')), len(results)))
         if bad:
             for r in bad[:5]:
                 log('HARNESS-ERROR run seed=%s status=%s %s' % (
